@@ -197,6 +197,21 @@ def equivalent(f, g, constraint=None):
     return True, None
 
 
+def implies(f, g):
+    """truth-table implication f => g over independent atoms -> (bool, counterexample)"""
+    ats = atoms(f)
+    for a in atoms(g):
+        if a not in ats:
+            ats.append(a)
+    if len(ats) > 14:
+        return (f == g), None
+    for vals in itertools.product((False, True), repeat=len(ats)):
+        asg = dict(zip(ats, vals))
+        if ev(f, asg) is True and ev(g, asg) is not True:
+            return False, asg
+    return True, None
+
+
 def show(f):
     k = f[0]
     if k == "const":
@@ -222,4 +237,7 @@ def show(f):
         return "%s is None" % f[1]
     if k == "in":
         return "%s in %s" % (f[1], f[2])
+    if k == "ile":
+        lhs = " ".join(("%+d*%s" % (c, t)) if abs(c) != 1 else ("%s%s" % ("+" if c > 0 else "-", t)) for t, c in f[1])
+        return "%s <= %s" % (lhs.lstrip("+"), f[2])
     return repr(f)
